@@ -101,7 +101,9 @@ impl Counter {
     /// Decrement counter by 1 and return true if crossing limit.
     #[inline(always)]
     pub(crate) fn dec(&self) -> bool {
-        self.counter.fetch_sub(1, Ordering::Relaxed) == self.limit
+        // The counter is biased by 1: `inc` reports the limit as hit (and `Accept` marks the worker
+        // unavailable) when the counter becomes `limit + 1`, so that is the value to cross here.
+        self.counter.fetch_sub(1, Ordering::Relaxed) - 1 == self.limit
     }
 
     pub(crate) fn total(&self) -> usize {
